@@ -294,6 +294,7 @@ def suite_multiround(tier: str, seed: int, mult: int) -> SuiteResult:
         for k in range((25 if tier == "quick" else 300) * mult):
             case = gen_mr_case(rng)
             case["final"] = None  # the command has no separate final criterion
+            case["dup"] = None    # the command reads a directory: every input is a distinct file
             case["cleanup"] = rng.random() < 0.7
             extra = {"overwrite": rng.random() < 0.3, "prepopulated": rng.random() < 0.4, "save_tree": rng.random() < 0.25,
                      "ps": rng.choice([1, 1, 2, 3]), "monitor": False, "copy": rng.random() < 0.5}
